@@ -351,6 +351,23 @@ class C12(Prop):
                     want.append(tuple(codec.canon(r[hdr.index(h)] if h in hdr and hdr.index(h) < len(r) else missing)
                                       for h in outhdr))
             return out == want and impl_obs[1][0][1] == tuple(codec.canon(h) for h in outhdr)
+        if nm == 'annex':
+            # headers side by side; the j-th output row is, table by table, the j-th row squared up to that table's own
+            # header (padded with `missing`, longer rows trimmed), all `missing` once a table is exhausted
+            missing, tabs = case.arg[1], t
+            if not all(len(tb) >= 1 for tb in tabs):
+                return None
+            outhdr = [h for tb in tabs for h in tb[0]]
+            n = max(len(tb) - 1 for tb in tabs)
+            want = []
+            for j in range(n):
+                row = []
+                for tb in tabs:
+                    w = len(tb[0])
+                    r = list(tb[1 + j]) if 1 + j < len(tb) else []
+                    row.extend((r + [missing] * w)[:w])
+                want.append(tuple(codec.canon(x) for x in row))
+            return out == want and impl_obs[1][0][1] == tuple(codec.canon(h) for h in outhdr)
         if nm in ('setheader', 'extendheader', 'prefixheader', 'suffixheader'):
             return out == rows_in                                   # data rows untouched
         if nm == 'addrownumbers':
